@@ -102,9 +102,15 @@ def main():
     ap.add_argument("--jobs", type=int, default=6)
     ap.add_argument("--tier", default="quick")
     ap.add_argument("--json", default="")
+    ap.add_argument("--props", default="", help="only edits that name this property")
     args = ap.parse_args()
     subprocess.run([os.path.join(VERIF, "run.sh"), "setup"], check=True)
     ms = [m for m in load() if args.only in m["id"] and (not args.kind or m["kind"] == args.kind)]
+    if args.props:
+        ms = [m for m in ms if args.props in (m.get("props") or [m.get("prop")])]
+        for m in ms:
+            if "props" in m:
+                m["props"] = [args.props]
     results = []
     with cf.ThreadPoolExecutor(max_workers=args.jobs) as ex:
         for m, status, detail in ex.map(lambda m: run_one(m, args), ms):
